@@ -146,6 +146,12 @@ class SimSocket:
             self.tail = "eof"
             self.log.append(("recv", n, "reset"))
             raise ConnectionResetError(104, "Connection reset by peer")
+        if ev[0] == "wantread":
+            import ssl as _ssl
+            self.log.append(("recv", n, "want-read"))
+            self.calls -= 1             # (not a transport call of the model's world: the read is simply made again)
+            self.recv_sizes.pop()
+            raise _ssl.SSLWantReadError(_ssl.SSL_ERROR_WANT_READ, "The operation did not complete (read)")
         if ev[0] == "interrupt":
             # the caller's own interruption lands in this read: KeyboardInterrupt / SystemExit / a BaseException of a
             # green-thread or deadline library (gevent.Timeout, asyncio.CancelledError are BaseExceptions)
